@@ -57,7 +57,9 @@ def render(b, rng, split=True, docs=True, mode="lib"):
     started = set()
 
     # declared type of the fields, by name, for this program: int, or bits<8> (then a let may override a part of it only)
-    ftype = {n: ("bits<8>" if rng.random() < 0.3 else "int") for n in ("f", "g")}
+    # (one width per program: a bits<1> value does not fit a bits<8> field)
+    width = rng.choice(["bits<8>", "bits<8>", "bits<1>"])
+    ftype = {n: (width if rng.random() < 0.35 else "int") for n in ("f", "g")}
     typed_classes = []          # (rendered name, declaration site) of the classes with template parameters declared so far
     extra_site = [1000000]      # sites the renderer adds on its own (not part of the abstract program)
 
@@ -204,7 +206,7 @@ def render(b, rng, split=True, docs=True, mode="lib"):
             fty = ftype.get(ev["f"], "int")
             R.lets.append((cur, len(files[cur]), ":" + fty, ev["site"]))
             if fty != "int" and rng.random() < 0.5:
-                emit(rng.choice(["{3-0}", "{7...4}", "{0}", "{1, 0}"]))          # only some bits are overridden: the field keeps its declared type
+                emit(rng.choice(["{3-0}", "{7...4}", "{0}", "{1, 0}"]) if fty == "bits<8>" else "{0}")     # only some bits: the declared type stays
             emit(" = ")
             val(ev["val"])
             emit(";\n")
